@@ -1,0 +1,24 @@
+//go:build verif
+
+// Package verifhook re-exports internal packages for the external verification harness.
+package verifhook
+
+import (
+	"time"
+
+	"github.com/aptpod/iscp-go/internal/segment"
+)
+
+type (
+	SegmentSender      = segment.Sender
+	SegmentReadBuffers = segment.ReadBuffers
+	SegmentReadBuffer  = segment.ReadBuffer
+)
+
+func SegmentSendTo(wr segment.Sender, seqNum uint32, msgPayload []byte) (int, error) {
+	return segment.SendTo(wr, seqNum, msgPayload)
+}
+
+func SegmentSetMaxPayloadSize(size int) int { return segment.VerifSetMaxPayloadSize(size) }
+
+func SegmentSetTimeNow(f func() time.Time) { segment.VerifSetTimeNow(f) }
